@@ -12,6 +12,11 @@ CLAIMS = {
          "Structural necessary conditions of C18, decided exhaustively over every function of client/cache/server/inmemory: every mutex acquired is released or deferred on every return path (L1, with acquire-wrapper summaries); every access to a lock-guarded field happens with its lock must-held, in write mode for writes, through all static callers of unexported helpers (L2); rpcMutex/txnMutex are never acquired while holding a lock that is elsewhere taken under them (L3'). A removed unlock, a new early return inside a locked region, an unguarded access or an inverted lock order is reported with file:line. It does not decide absence of all data races or general deadlock freedom.",
          "Trusts go/ssa and the frozen guarded-by table; fields ordered by channels/WaitGroup are outside the table; lock classes are per struct field (not per object).",
          "DESIGN.md §4 E1, §5 C18"),
+ "C19": ("E4-totality",
+         "SSA dominance + value-equivalence proof obligations (index bounds, checked assertions, nil guards, hashable keys, non-zero divisors)",
+         "Totality obligations on the code that consumes untrusted input, decided for every site: in every UnmarshalJSON of package ovsdb and the functions they reach, each slice/string index needs a dominating length test on an equivalent operand (P-IDX), each single-result type assertion a dominating successful comma-ok assertion/type-switch arm (P-ASSERT), each optional pointer member a dominating nil test (P-NIL), each interface-typed map key a comparable dynamic type on every path (P-HASH); on the transaction path every optional member of an Operation is nil-tested before use (P-NIL-TXN) and every integer / and % has a non-zero divisor locally or through the ValidateMutation gate pair (P-DIV). An undischarged obligation is a concrete panic site. It does not cover assertions in the transaction path that rely on upstream schema validation, nor resource exhaustion.",
+         "Trusts go/ssa; equal loads of an address-taken local are identified when no write can occur between them; encoding/json does not retain &local. Scope: ovsdb decoders + functions reachable from OvsdbServer.Transact.",
+         "DESIGN.md §4 E4, §5 C19"),
 }
 
 NOT_APPLICABLE = {
